@@ -246,7 +246,7 @@ def run(ctx):
                 cases = []
                 for iname, init in inits(a, b, pb):
                     for lim in limits:
-                        for style in ((0, 1) if lim in (-1, 2) and iname in ("absent", "garbage") else (0,)):
+                        for style in ((0, 1, 3) if lim in (-1, 2) and iname in ("absent", "garbage") else (0,)):
                             cases.append((iname, init, lim, style))
                 jobs.append(("%s:%s" % (aw, ca.name()) if aw is not None else "absent", a, "%s:%s" % (bw, cb.name()), b, cases))
                 # the old file may be damaged: header intact, one chunk's stored bytes flipped - what cannot be reused must be fetched
@@ -272,7 +272,7 @@ def run(ctx):
             for aw in [None] + lsrc:
                 a = lfiles[(aw, c.name())] if aw is not None else None
                 cases = [(iname, init, lim, style) for iname, init in inits(a, b, pb) if iname in ("absent", "garbage", "B-zero3", "B-cut-last")
-                         for lim in (1, 2, 3, -1) for style in (0, 1)]
+                         for lim in (1, 2, 3, -1) for style in (0, 1, 2)]
                 jobs.append(("%s:%s" % (aw, c.name()) if aw is not None else "absent", a, "%s:%s" % (bw, c.name()), b, cases))
                 npairs += 1
                 # a connection that drops after every number of body bytes of the first chunk response, then the same zckDL again
